@@ -138,6 +138,27 @@ def run_spec(p, res):
             vals = [(start + 3 * i) % M for i in range(L)]
             run(f"1d-len{L}", torch.tensor([bit for v in vals for bit in sym(v)], dtype=f32))
 
+    # ---------------- alternating constellation: modulator and demodulator both carry the rotation state from call to call in training
+    # mode; a stream cut into blocks (odd and even numbers of symbols) must round-trip block by block without a reset in between
+    if kind == "alternating":
+        try:
+            m2, d2 = MC.build(spec)
+            m2.train()
+            d2.train()
+            m2.reset_state()
+            d2.reset_state()
+            stream_ok = True
+            for bi, L in enumerate((3, 2, 1, 5, 4)):
+                vals = [(bi + 2 * i + 1) % M for i in range(L)]
+                xb = torch.tensor([[bit for v_ in vals for bit in sym(v_)]], dtype=f32)
+                yb = d2(m2(xb))
+                res.ev(1, nontrivial=1, transitions=2)
+                if tuple(yb.shape) != tuple(xb.shape) or not torch.equal(yb.to(f32), xb):
+                    res.viol(scheme, f"{cfg};stream", "stream-continuity", f"training mode, block {bi} ({L} symbols) of a stream cut into blocks of 3,2,1,5,4 symbols: bits {xb[0].tolist()} -> {yb.reshape(-1).tolist()}")
+                    stream_ok = False
+                    break
+        except Exception as e:  # noqa: BLE001
+            res.viol(scheme, f"{cfg};stream", "raises", f"{type(e).__name__}: {str(e)[:160]}")
     # ---------------- E2: schemes with memory
     if kind != "memoryless":
         pool = [[bit for v in (1 % M, M - 1, 2 % M) for bit in sym(v)], [bit for v in (M - 1, M - 1) for bit in sym(v)],
